@@ -290,7 +290,7 @@ def check_c15(w, rec, st):
         elif oc2 == "ok":
             dt = rec["op"]["arg"]["dtype"] if kind == "call" else DTNAME.get(rec["pyr"][0][0].dtype, "float32")
             m = compare(snap(val2), ref_snap, "tol", 64 * EPS.get(dt, EPS["float32"]),
-                        scale=max(1e-30, max_abs(ref_snap)), check_grad_meta=False)
+                        scale=max(1e-30, max_abs(ref_snap), _bias(rec)), check_grad_meta=False)
             if m:
                 w.violation("I6-grad-mode", rec, "values under %s differ from values under %s: %s" % (other, gm, m))
 
@@ -350,7 +350,7 @@ def check_backward(w, rec, st, how):
                     # filters sum to zero exactly, which float32-rounded ones do not
                     cs = max([float(c.detach().abs().max()) for c in cots if c.numel()] + [0.0])
                     m = compare(rec["out_snap"], ref_snap, "tol", 1e-5,
-                                scale=max(max_abs(ref_snap), cs, 1e-30))
+                                scale=max(max_abs(ref_snap), cs, _bias(fwd), 1e-30))
                 if not m and fwd["kind"] in ("call", "inverse") and fwd.get("state") is not None:
                     cur = expected_dtype(fwd["recipe"])
                     L = fresh(cur)
@@ -410,7 +410,7 @@ def check_backward(w, rec, st, how):
                 return
             if occ == "ok":
                 m = compare(snap(list(gs)), sc, "tol", 16 * EPS.get(in_dt, EPS["float32"]),
-                            scale=max(1e-30, max_abs(sc), cs))
+                            scale=max(1e-30, max_abs(sc), cs, _bias(fwd)))
                 if m:
                     w.violation("D4-strided", rec, "backward with a %s gradient vs its contiguous "
                                 "copy: %s" % (name, m))
@@ -549,7 +549,8 @@ def check_c16(w, rec, st):
             xs = abs(rec["op"]["arg"].get("scale", 1.0)) * 6.0
         else:
             xs = max(1e-30, max_abs(snap([rec["pyr"][0][0]] + [f[0] for f in rec["pyr"][1] if f is not None])))
-        m = compare(rec["out_snap"], ref_snap, "tol", 1e-5, scale=max(max_abs(ref_snap), xs, 1e-30))
+        m = compare(rec["out_snap"], ref_snap, "tol", 1e-5,
+                    scale=max(max_abs(ref_snap), xs, _bias(rec), 1e-30))
         st["compared_tol"] += 1
         if not m and kind in ("call", "inverse") and rec.get("state") is not None:
             # factor the float32 rounding of the filters out: a module
@@ -585,6 +586,21 @@ def check_c16(w, rec, st):
         w.violation("D1-output-dtype", rec, "input dtype %s but %s" % (in_dt, bad))
     check_d4(w, rec, st, kind, in_dt)
     check_d4_all(w, rec, st, in_dt)
+def _bias(rec):
+    """The scattering layers compute sqrt(|z|^2 + b^2) - b: their rounding
+    error is relative to the magnitude bias b as well (the property says so:
+    'plus the magnitude bias for the scattering layers')."""
+    b = 0.0
+    for key in ("recipe", "recipe2"):
+        r = rec.get(key)
+        if r and r[0][1] in ("scat", "scat2"):
+            try:
+                b = max(b, abs(float(r[0][2].get("magbias", 0.0))))
+            except Exception:  # noqa
+                pass
+    return b
+
+
 def check_d4_all(w, rec, st, in_dt):
     """(iv) for every memory layout the harness knows, not only the one the plan
     drew: the same input values as channels_last / transposed / strided /
@@ -616,7 +632,7 @@ def check_d4_all(w, rec, st, in_dt):
             w.violation("D4-strided", rec, "%s input: %s, contiguous copy: %s" % (lay, oc1, oc2))
             return
         m = compare(snap(v1), s2, "tol", 16 * EPS.get(in_dt, EPS["float32"]),
-                    scale=max(1e-30, max_abs(s2), xin))
+                    scale=max(1e-30, max_abs(s2), xin, _bias(rec)))
         if m:
             w.violation("D4-strided", rec, "%s input vs contiguous copy: %s" % (lay, m))
             return
@@ -648,7 +664,7 @@ def check_d4(w, rec, st, kind, in_dt):
             else:
                 xin = max_abs(snap([rec["pyr"][0][0]] + [f[0] for f in rec["pyr"][1] if f is not None]))
             m = compare(snap(v1), s2, "tol", 16 * EPS.get(in_dt, EPS["float32"]),
-                        scale=max(1e-30, max_abs(s2), xin))
+                        scale=max(1e-30, max_abs(s2), xin, _bias(rec)))
             if m:
                 w.violation("D4-strided", rec, "strided input vs contiguous copy: " + m)
 
